@@ -714,11 +714,17 @@ func readBinaryFaceElement(element Element, endian binary.ByteOrder, in io.Reade
 				return nil, nil, err
 			}
 			if readerIndex == indicesProp {
-				reader.Int(indicesBuf)
+				err = reader.Int(indicesBuf)
+				if err != nil {
+					return nil, nil, err
+				}
 			}
 
 			if readerIndex == texCordProp {
-				reader.Float64(texBuf)
+				err = reader.Float64(texBuf)
+				if err != nil {
+					return nil, nil, err
+				}
 			}
 		}
 
